@@ -139,17 +139,15 @@ func (k *worker) download(dir, wire string, resume bool, off int, preview bool, 
 	if preview {
 		fields = append(fields, sim.Fld(sim.FFileTransferOptions, sim.U16(2)))
 	}
-	rep, err := k.c.Request(sim.TDownloadFile, fields...)
-	if err != nil {
-		return nil, fmt.Errorf("download request: %w", err)
-	}
+	rep, replied, closed := k.ask(sim.TDownloadFile, fields...)
 	ref, has107 := rep.Get(sim.FRefNum)
 	f108, _ := rep.Get(sim.FTransferSize)
 	f207, _ := rep.Get(sim.FFileSize)
-	o := map[string]any{"replied": true, "err": rep.Err != 0, "has107": has107 && len(ref) == 4 && rep.Err == 0,
+	has107 = replied && has107 && len(ref) == 4 && rep.Err == 0
+	o := map[string]any{"replied": replied, "closed": closed, "err": replied && rep.Err != 0, "has107": has107,
 		"f108": sim.BE(f108), "f207": sim.BE(f207)}
 	var stream []byte
-	if has107 && len(ref) == 4 {
+	if has107 {
 		ce, se := sim.Pipe()
 		_, _ = ce.Write(preamble(ref, 0))
 		res := k.serve(se, ref, 120*time.Second)
